@@ -785,13 +785,15 @@ class List(list, base.Symbolic, pg_typing.CustomTyping):
           f'({len(self) + len(other)}) exceeds max size ({self.max_size}).')
 
     updates = []
-    for v in other:
-      update = self._set_item_without_permission_check(len(self), v)
-      if update is not None:
-        updates.append(update)
-
-    if flags.is_change_notification_enabled() and updates:
-      self._notify_field_updates(updates)
+    try:
+      for v in other:
+        update = self._set_item_without_permission_check(len(self), v)
+        if update is not None:
+          updates.append(update)
+    finally:
+      # Also when an item is rejected: the items appended before it stay.
+      if flags.is_change_notification_enabled() and updates:
+        self._notify_field_updates(updates)
 
   def clear(self) -> None:
     """Clears the list."""
